@@ -9,6 +9,9 @@ mkdir -p $D/repo $D/harness
 rsync -a --delete --exclude target --exclude .git /repo/ $D/repo/
 rsync -a --exclude target /verif/harness/ $D/harness/
 find $D/harness -name Cargo.toml | xargs sed -i "s|\"/repo/crates/|\"$D/repo/crates/|g"
+# rsync restores a previously mutated file with its ORIGINAL mtime; cargo would then keep the stale mutant artifact: touch it
+[ -f $D/last ] && for f in $(cat $D/last); do touch "$D/repo/$f"; done
+echo "$F" > $D/last
 cp $D/repo/$F $D/mutant.bak
 sed -i "$E" $D/repo/$F
 if cmp -s $D/repo/$F $D/mutant.bak; then echo "MUTATION DID NOT APPLY"; exit 3; fi
